@@ -198,6 +198,10 @@ fn docs(tier: Tier) -> Vec<String> {
     v.push("<svg/>".into());
     v.push("<svg></svg>".into());
     v.push("<svg>just text &amp; more</svg>".into());
+    // seventh round (seed C05e): quotes and markup characters in class tokens, ids and styles, on elements and on the root
+    v.push("<svg><rect wh=\"5\" class=\"a&quot;b c\"/></svg>".into());
+    v.push("<svg class=\"r&quot;q\"><rect wh=\"5\" class=\"x&amp;y &lt;z\" text=\"t\"/></svg>".into());
+    v.push("<svg><g class='a&apos;b \"c'><rect wh=\"5\" id=\"i&quot;d\" style=\"font-family:&quot;X&quot;\" class=\"d-red q&#34;\"/></g></svg>".into());
     v
 }
 
@@ -206,7 +210,7 @@ pub fn run(tier: Tier) -> i32 {
     let (c1, c2) = (c1s(), c2s());
     let ds = docs(tier);
     rep.set("rule", json!(format!("Documents with a root <svg>: every single item, every ordered pair{} of {} output-producing items (generated text with special characters/quotes/multi-line/pre-formatted/unicode, _ and __ comments, classes that emit style CDATA and defs, author <style>/<defs>/CDATA, groups with transforms, reuse, loops, foreign-namespace attributes, tail text/blank lines/CRLF/tabs, source comments with entities, text content, tspans, nested namespaced and plain <svg>, PIs, connectors, surround, point/box, variables with specials, links, paths, vertical text) under 4 prolog forms and root-attribute variants, plus the repository's examples/*.xml, real-SVG documents, odd spellings (namespace written with character references / single quotes / blanks, U+FEFF as content before the root and in text) and four ill-formed inputs the reader accepts. For each document x and each of {} first configurations c1: if T_c1(x) is Ok(y) then for each of {} second configurations c2, T_c2(y) must be Ok and byte-identical to y (alternating transform_stream / transform_str). Non-trivial = at least one c1 gave Ok.", if tier == Tier::Thorough { " and every unordered triple" } else { "" }, ITEMS.len(), c1.len(), c2.len())));
-    rep.set("also_later", json!("Rounds 3-5 added 6 documents whose first pass must not 'succeed' without a root (unreadable element in <specs>, DOCTYPE with '<'), and documents using declared entities."));
+    rep.set("also_later", json!("Rounds 3-5 added 6 documents whose first pass must not 'succeed' without a root (unreadable element in <specs>, DOCTYPE with '<'), and documents using declared entities. Round 7 (seed C05e) added quotes and markup characters in class tokens, ids and styles."));
     let st = run_space(ds.len(), |i| check(&ds[i], "items", &c1, &c2));
     rep.sample(json!({"leg": "items", "doc": ds[ds.len() / 2]}));
     rep.sample(json!({"leg": "items", "doc": ds[7]}));
